@@ -33,8 +33,8 @@ func (c16) Components() map[string]string {
 	return map[string]string{
 		"plugin.CLIManager (Get, List, Install, Uninstall), CLIPlugin, internal/file.Copy*": "real",
 		"verifier.Verify (end-to-end lookup of the plugin named by the signature)":          "real",
-		"os, path/filepath":   "simos/simfilepath shims over tmpfs: every call observed by the effects monitor",
-		"os/exec":             "simexec model: every executed path recorded",
+		"os, path/filepath":             "simos/simfilepath shims over tmpfs: every call observed by the effects monitor",
+		"os/exec":                       "simexec model: every executed path recorded",
 		"sentinel / plugin executables": "scripted simulator processes",
 	}
 }
